@@ -356,7 +356,7 @@ pub fn run(args: &[String]) {
         ctx.finish(Map::new(), vec![]);
     }
     let tier = ctx.tier();
-    let max_k = tier.pick(4, 5);
+    let max_k = tier.pick(5, 5) /* the thorough bound takes < 10 s: both tiers run it */;
     let mut cases: Vec<Vec<usize>> = Vec::new();
     for k in 2..=max_k {
         cases.extend(multisets(universe.len(), k));
